@@ -135,6 +135,79 @@ def build_def(d, name='f'):
         no_kwargs=d.get('no_kwargs', False))
 
 
+def _show(x):
+    if isinstance(x, contexts.ContextBase):
+        return '<ctx>'
+    if callable(x):
+        return ['<lazy>', x()]
+    return x
+
+
+def build_def_declared(d, name='f'):
+    """The same family member declared the way a host does it: a Python
+    function with a real signature (defaults, *args, keyword-only
+    parameters, **kwargs), typed with specs.parameter decorators and turned
+    into a definition by specs.get_function_definition.  None when the
+    member has no such spelling (a mandatory positional parameter after a
+    defaulted one)."""
+    pos = [p for p in d['params'] if not p.get('kwonly')]
+    kwo = [p for p in d['params'] if p.get('kwonly')]
+    seen = False
+    for p in pos:
+        if 'default' in p:
+            seen = True
+        elif seen:
+            return None
+    if any(p.get('hidden') for p in kwo):
+        return None
+    dflt = {}
+    for p in d['params']:
+        if 'default' in p:
+            v = p['default']
+            dflt[p['name']] = value(v) if isinstance(v, dict) and 'o' in v \
+                else v
+
+    def part(p):
+        return '%s=_d[%r]' % (p['name'], p['name']) if 'default' in p \
+            else p['name']
+    sig = [part(p) for p in pos]
+    if d.get('varargs'):
+        sig.append('*args')
+    elif kwo:
+        sig.append('*')
+    sig += [part(p) for p in kwo]
+    if d.get('kwargs'):
+        sig.append('**kwargs')
+    src = 'def payload(%s):\n    return [_tag, [_show(x) for x in [%s]%s], ' \
+          '{k: _show(v) for k, v in sorted(dict(%s%s).items())}]\n' % (
+              ', '.join(sig), ', '.join(p['name'] for p in pos),
+              ' + list(args)' if d.get('varargs') else '',
+              ', '.join('%s=%s' % (p['name'], p['name']) for p in kwo),
+              (', ' if kwo else '') + '**kwargs' if d.get('kwargs') else '')
+    ns = {'_d': dflt, '_tag': d['tag'], '_show': _show}
+    exec(src, ns)
+    func = ns['payload']
+    for p in d['params']:
+        if p.get('hidden'):
+            func = specs.inject(p['name'], yaqltypes.Context())(func)
+            continue
+        vt = make_type(p['type'], p.get('nullable', False),
+                       p.get('lazy', False))
+        func = specs.parameter(p['name'], vt, alias=p.get('alias'))(func)
+    if d.get('varargs'):
+        func = specs.parameter('args', make_type(d['varargs'], True))(func)
+    if d.get('kwargs'):
+        func = specs.parameter('kwargs', make_type(d['kwargs'], True))(func)
+    kind = d.get('kind', 'function')
+    if kind == 'method':
+        func = specs.method(func)
+    elif kind == 'extension':
+        func = specs.extension_method(func)
+    if d.get('no_kwargs'):
+        func = specs.no_kwargs(func)
+    return specs.get_function_definition(func, name=name)
+
+
 def build_chain(family, base, orders=None, ordered=True, reg_order=None):
     """Chain of contexts (layer 0 nearest) holding the family.
 
@@ -155,7 +228,11 @@ def build_chain(family, base, orders=None, ordered=True, reg_order=None):
     idx = reg_order if reg_order is not None else range(len(family['defs']))
     for i in idx:
         d = family['defs'][i]
-        fd = build_def(d)
+        fd = None
+        if family.get('decl') == 'signature':
+            fd = build_def_declared(d)
+        if fd is None:
+            fd = build_def(d)
         defs[d['tag']] = fd
         by_layer[d['layer']].register_function(
             fd, exclusive=d.get('exclusive', False))
